@@ -188,7 +188,7 @@ func c12(r *Report) {
 		for _, ret := range returns(nr) {
 			for _, v := range retVals(ret, 1) {
 				for _, l := range resolveAll(v) {
-					if errClass(l) == "call:fmt.Errorf" {
+					if isFreshErr(l) {
 						rejects++
 					}
 				}
